@@ -22,6 +22,10 @@ def passes(seed):
     out.append(('utf8-2byte', 'pässwörd'))
     out.append(('utf8-3byte', '密碼密碼'))
     out.append(('utf8-4byte', '\U0001F511\U0001F511key'))
+    # text that is not in normalisation form C: RFC 4880 hashes the UTF-8 octets of the string as given
+    out.append(('utf8-decomposed', 'cafe\u0301 pa\u0308ss'))
+    out.append(('utf8-singleton', '\u212b\u2126 ohm'))
+    out.append(('utf8-jamo', '\u1112\u1161\u11ab'))
     out.append(('bytes-high', bytes(range(200, 256))))
     out.append(('bytes-nul', b'\x00\x00a\x00'))
     out.append(('ascii-1000', 'x' * 1000))
